@@ -23,7 +23,7 @@ D1 = {"n": 6, "tag": 141}
 D2 = {"n": 21, "tag": 142}
 K, K2, K3 = "k-main", "k-oneshot", "k-linked"
 
-ACTIONS = ["W1", "W2", "W3", "WH", "WBAD", "WBADI", "WMULTI", "WOTHER", "WHDEC", "W0", "WOVF", "R", "RH", "ST", "M", "L", "E", "CP", "CPU", "HL", "HLDHL", "RM", "RMH", "RF", "CL", "LK", "DFLIP", "DTRUNC", "DUTF8", "DTORN", "DSHORT", "DBADSRI", "DDIR"]
+ACTIONS = ["W1", "W2", "W3", "WH", "WBAD", "WBADI", "WMULTI", "WOTHER", "WHDEC", "W0", "WOVF", "WOVFK", "R", "RH", "ST", "M", "L", "E", "CP", "CPU", "HL", "HLDHL", "RM", "RMH", "RF", "CL", "LK", "DFLIP", "DTRUNC", "DUTF8", "DTORN", "DSHORT", "DBADSRI", "DDIR"]
 MIXED = ["W1", "W2", "WH", "R", "M", "L", "RM", "RF", "DUTF8", "ST", "W3", "W0"]
 
 
@@ -71,7 +71,7 @@ def do_action(srv, side, cache, aux, act):
         rep, _ = wr.do_write(srv, cache, side=side, entry="open", key=K, algo="sha256", n=D1["n"], tag=D1["tag"], opts={"time": "5", "metadata": {"a": [1, "é"]}, "raw_metadata": "00ff"})
         return [rep]
     if act == "W2":
-        rep, _ = wr.do_write(srv, cache, side=side, entry="open", key=K, algo="sha512", n=D2["n"], tag=D2["tag"], chunks=[1, 20], opts={"time": "6", "size": D2["n"]})
+        rep, _ = wr.do_write(srv, cache, side=side, entry="open", key=K, algo="sha512", n=D2["n"], tag=D2["tag"], chunks=[1, 20], opts={"time": str(2 ** 64 + 6), "size": D2["n"]})
         return [rep]
     if act == "W3":
         rep, _ = wr.do_write(srv, cache, side=side, entry="oneshot", key=K2, n=D1["n"], tag=D1["tag"])
@@ -104,6 +104,10 @@ def do_action(srv, side, cache, aux, act):
         # bytes of D1: the rejected commit must leave a stored copy of D1 as it was, in every flavour alike
         rep, _ = wr.do_write(srv, cache, side=side, entry="open_hash", algo="sha256", n=D1["n"], tag=D1["tag"], chunks=[4, 2], opts={"size": 5})
         return [rep, srv.call({"op": "read_hash" + suf, "cache": cache, "sri": sri(D1)})]
+    if act == "WOVFK":
+        # the same through the KEYED writer (the sync flavour maps its temp file for a declared size, the async ones do not)
+        rep, _ = wr.do_write(srv, cache, side=side, entry="open", key=K2, algo="sha256", n=D1["n"], tag=D1["tag"], chunks=[4, 2], opts={"size": 5, "time": "11"})
+        return [rep, srv.call({"op": "read_hash" + suf, "cache": cache, "sri": sri(D1)}), srv.call({"op": "metadata" + suf, "cache": cache, "key": K2})]
     if act == "WOTHER":
         # a declared integrity under another algorithm than the writer's (correct digest of the data)
         rep, _ = wr.do_write(srv, cache, side=side, entry="open", key=K, algo="sha256", n=D1["n"], tag=D1["tag"], opts={"time": "9", "integrity": ref.sri("sha512", ref.gen(D1["n"], D1["tag"]))})
